@@ -49,7 +49,11 @@ def _sha1(path):
 class Recording:
     """A source tree written by the real writers, kept as a pristine template."""
 
-    def __init__(self, digital_rf, root, rng, nch=1, name="rec"):
+    def __init__(self, digital_rf, root, seed, nch=1, name="rec"):
+        import random
+
+        rng = random.Random(seed)
+        self.params = dict(seed=seed, nch=nch, name=name)   # enough to write the same recording again
         self.root = root
         self.name = name
         if os.path.exists(root):
@@ -591,7 +595,9 @@ def run_history(digital_rf, rec, work, name, opts, steps, crash_at=None, desc=""
     sc = dict(name=name, desc=desc or "%s %s%s%s" % (rec.name, opts["method"], " link" if opts.get("link") else "",
                                                      " exdev" if opts.get("exdev") else ""),
               cfg=cfg, rd_truth=rec.rd_truth, events=w.events, files=[f["rel"] for f in rec.files],
-              opts={k: v for k, v in opts.items() if v is not None}, crash_at=(crash_at or 0) if not crash_rule else -1, tracebacks=w.tracebacks)
+              opts={k: v for k, v in opts.items() if v is not None}, crash_at=(crash_at or 0) if not crash_rule else -1,
+              tracebacks=w.tracebacks,
+              rerun=dict(rec=rec.params, steps=[list(x) for x in steps], crash_at=crash_at, crash_rule=list(crash_rule) if crash_rule else None))
     shutil.rmtree(w.src, ignore_errors=True)
     shutil.rmtree(w.dst, ignore_errors=True)
     return sc, nops
